@@ -404,6 +404,15 @@ def generate(template_path: str) -> Tuple[str, List[dict]]:
             # field attributes are dropped too
             body_toks = strip_attrs(src.toks[it.first:it.last + 1])
             txt = text_without_attrs(src, src.toks[it.first:it.last + 1])
+            if "derive" in opts:
+                # keep selected derives, but only those the source really has (attributes sit right before the item)
+                pre = src.text[max(0, src.toks[it.first].start - 600):src.toks[it.first].start]
+                have = set(re.findall(r"\w+", " ".join(re.findall(r"#\[derive\(([^)]*)\)\]", pre.split("}")[-1]))))
+                want = [d.strip() for d in opts["derive"].split(",") if d.strip()]
+                missing = [d for d in want if d not in have]
+                if missing:
+                    raise Lost(f"{src.spec}: {name} no longer derives {missing}")
+                out.append(f"{indent}#[derive({', '.join(want)})]")
             uid += 1
             out.append(f"{indent}/*@B:{uid}*/ {txt} /*@E:{uid}*/")
             manifest.append({"uid": uid, "kind": "struct", "src": src.spec, "name": name,
